@@ -62,6 +62,10 @@ def gen_tree(rng, n_secs, depth_max):
                 continue
             nd["props"].append({"name": pname, "values": rng.choice([1, [1, 2], "x", ["a", "b"], 2.5]),
                                 "unit": rng.choice([None, None, "mV"])})
+            if rng.random() < 0.008 and not any(p["name"] == "ch0" for p in nd["props"]):
+                # a Section with more children than any small-number shortcut covers
+                for extra in range(260):
+                    nd["props"].append({"name": "ch%d" % extra, "values": extra, "unit": None})
             if rng.random() < 0.12:
                 # an n-tuple Property (its stored values are lists)
                 nd["props"][-1].update({"values": ["(1024;768)"], "dtype": "2-tuple"})
